@@ -237,6 +237,16 @@ def r4_data_object(repo, rep):
     rep.check(re.fullmatch(pat, txt) is not None, 'R4/single-source', '%s is built from the setter argument in its order' % fld, st.qualname,
               'self.%s = %s' % (fld, txt[:100]), 'self.%s is `%s`: not built from the given geo list in the given order, so indices no longer refer to the same geos as the arrays'
               % (fld, txt[:80]), st.loc(n.ast))
+  # every normal path through the setter installs all four fields (no early return that keeps stale arrays)
+  stores = [n for n in ctx.g.nodes if n.kind == 'stmt' and isinstance(n.ast, ast.Assign)
+            and any(isinstance(t, ast.Attribute) and norm(t.value) == st.params[0] and t.attr in want for t in n.ast.targets)]
+  for fld in want:
+    nodes = [n for n in stores if any(isinstance(t, ast.Attribute) and t.attr == fld for t in n.ast.targets)]
+    p_ = ctx.g.path_avoiding(ctx.g.entry, lambda n: n is ctx.g.exit, lambda n: n in nodes, cfgmod.no_exc)
+    rep.check(p_ is None, 'R4/single-source', 'every path through the geo_index setter re-installs %s' % fld, st.qualname,
+              'path without store of self.%s: %s' % (fld, ' -> '.join('L%d' % n.lineno for n, _ in (p_ or []) if n.lineno)),
+              'the geo_index setter can return without rebuilding self.%s (path %s): after the data window or the index changed, aggregates are computed from a stale array'
+              % (fld, ' -> '.join('L%d' % n.lineno for n, _ in (p_ or []) if n.lineno)), st.loc())
   for mname, arr, axis in (('aggregate_time_series', '_array', '0'), ('aggregate_geo_share', '_array_geo_share', None)):
     m = dcls.methods.get(mname)
     if m is None:
